@@ -32,6 +32,19 @@ class Cell:
         self.cell_contents = v
 
 
+class _Wild:
+    """an unrelated object that claims to be equal to everything (unittest.mock.ANY, an array-like, a wildcard)"""
+
+    def __eq__(self, other):
+        return True
+
+    def __ne__(self, other):
+        return False
+
+    __hash__ = object.__hash__
+
+
+WILD = _Wild()
 RECURSE = Record(kind="recurse symbol")
 CALL_NEXT = Record(kind="call_next symbol")
 DISPATCH = Record(kind="entry point")
@@ -47,9 +60,9 @@ def scenarios():
     deeper = FakeCode(names=(), consts=(None, 3, FakeCode(names=("deepest_alias",))))
     out["references-everywhere"] = dict(
         # (a generator expression's first constant can itself be code: the nested code in slot 0 counts too)
-        code=FakeCode(names=("recurse", "myself", "len"), freevars=("captured", "unrelated"), consts=(FakeCode(names=("first_slot_alias",)), None, "doc", inner, deeper)),
-        globals={"recurse": RECURSE, "myself": DISPATCH, "deep_alias": RECURSE, "deepest_alias": ov, "first_slot_alias": DISPATCH, "len": OTHER, "print": OTHER},
-        closure=(Cell(ov), Cell(OTHER)),
+        code=FakeCode(names=("recurse", "myself", "len", "wildcard"), freevars=("captured", "unrelated", "captured_wildcard"), consts=(FakeCode(names=("first_slot_alias",)), None, "doc", inner, deeper)),
+        globals={"recurse": RECURSE, "myself": DISPATCH, "deep_alias": RECURSE, "deepest_alias": ov, "first_slot_alias": DISPATCH, "len": OTHER, "print": OTHER, "wildcard": WILD},
+        closure=(Cell(ov), Cell(OTHER), Cell(WILD)),
         want_rec={"recurse", "myself", "captured", "deep_alias", "deepest_alias", "first_slot_alias"},
         want_cn=None,
         ov=ov,
@@ -100,7 +113,7 @@ def run(ctx, sc):
                 genv[nm] = rename
                 funcs.pop(nm)
     hi = HostInterp({}, Record(), {}, globals_env=genv, classes={}, functions=funcs)
-    hi.host_types = hi.host_types + (FakeCode, Cell)
+    hi.host_types = hi.host_types + (FakeCode, Cell, _Wild)
     fn = Record(__code__=sc["code"], __globals__=sc["globals"], __closure__=sc["closure"], __name__="method")
     params = ad.params
     if len(params) != 3:
@@ -144,7 +157,7 @@ def check(ctx, name):
 
 
 LAW_TEXT = {
-    "all-references": ("every name of the method's code - global or closure cell, at any nesting depth - that is bound to recurse, the function object or its entry point is handed to the re-compiler", "a leftover reference keeps calling the function the method was first registered in (or raises UsageError) when it runs inside a variant"),
+    "all-references": ("every name of the method's code - global or closure cell, at any nesting depth - that is bound to recurse, the function object or its entry point *itself* (the very object, not something that merely compares equal) is handed to the re-compiler, and no other", "a leftover reference keeps calling the function the method was first registered in (or raises UsageError) when it runs inside a variant"),
     "call_next-found": ("the name under which the method sees call_next is found in globals and in closure cells", "call_next imported inside an enclosing function is left unrewritten and raises UsageError"),
     "plain-methods-renamed": ("a method without such references is only renamed", "ordinary methods are needlessly recompiled from source (or not registered under their own name)"),
 }
